@@ -9,6 +9,7 @@ import (
 	"encoding/json"
 	"fmt"
 	"os"
+	"runtime"
 	"strconv"
 	"strings"
 	"testing"
@@ -70,8 +71,14 @@ func vRunCase(c vCase) (result string, obs []vObs) {
 			timeout = time.Duration(n) * time.Second
 		}
 	}
+	var ms0, ms1 runtime.MemStats
+	runtime.ReadMemStats(&ms0)
 	select {
 	case r := <-done:
+		runtime.ReadMemStats(&ms1)
+		if ms1.TotalAlloc-ms0.TotalAlloc > 1<<24 {
+			r += " alloc>2^20"
+		}
 		return r, st.observed
 	case <-time.After(timeout):
 		return "timeout", nil
